@@ -161,6 +161,21 @@ func (f *faultyRand) Read(p []byte) (int, error) {
 	return n, errors.New("dsim: randomness source failed")
 }
 
+// hookRand runs a callback once, just before the first read from the randomness source.
+type hookRand struct {
+	inner  io.Reader
+	before func()
+	fired  bool
+}
+
+func (h *hookRand) Read(p []byte) (int, error) {
+	if !h.fired {
+		h.fired = true
+		h.before()
+	}
+	return h.inner.Read(p)
+}
+
 func (e *secretExec) val() any {
 	if e.p.AsStr {
 		return string(e.p.Plain)
@@ -328,6 +343,70 @@ func (e *secretExec) step(s *SecStep) {
 				if len(stored) == 2 && bytes.Equal(stored[0], stored[1]) {
 					o.Violate("C19", "nonce-reused", "with a failing randomness source two encryptions of the same value are identical", map[string]string{"rng": "failed"})
 					return
+				}
+			}
+		}
+	case "overlap":
+		// two encryptions that overlap in time: while the first draws its nonce (inside the call to
+		// the randomness source) a second value is encrypted into another Meta, as a concurrent
+		// caller's would be; afterwards each Meta gives back its OWN value. The second value has
+		// the same length, is shorter, or is longer.
+		for _, asStr := range []bool{true, false} {
+			for _, shape := range []string{"same", "shorter", "longer"} {
+				other := make([]byte, len(p.Plain))
+				for i := range other {
+					other[i] = "ZYXWVUTSRQ"[(i+s.N)%10]
+				}
+				switch shape {
+				case "shorter":
+					other = other[:len(other)/2]
+				case "longer":
+					other = append(other, []byte("-and-some-more-to-follow")...)
+				}
+				val := func(b []byte) any {
+					if asStr {
+						return string(b)
+					}
+					return append([]byte{}, b...)
+				}
+				m1, m2 := meta.NewMeta(), meta.NewMeta()
+				var err1, err2 error
+				old := rand.Reader
+				hook := &hookRand{inner: old}
+				hook.before = func() {
+					rand.Reader = old
+					err2 = m2.AddEncrypted("k", val(other), p.Key)
+				}
+				rand.Reader = hook
+				panicked := guard(o, "Meta.AddEncrypted overlapping another", func() { err1 = m1.AddEncrypted("k", val(p.Plain), p.Key) })
+				rand.Reader = old
+				if panicked {
+					return
+				}
+				o.Fault("overlapping_encryption")
+				e.sig("overlap", fmt.Sprint(asStr, shape, hook.fired))
+				if err1 != nil || err2 != nil || !hook.fired {
+					continue
+				}
+				o.Eval("C19")
+				for _, c := range []struct {
+					m    *meta.Meta
+					want []byte
+					who  string
+				}{{m1, p.Plain, "first"}, {m2, other, "second"}} {
+					var got []byte
+					var gerr error
+					if asStr {
+						var gs string
+						gs, gerr = c.m.GetEncryptedString("k", p.Key)
+						got = []byte(gs)
+					} else {
+						got, gerr = c.m.GetEncryptedBytes("k", p.Key)
+					}
+					if gerr != nil || !bytes.Equal(got, c.want) {
+						o.Violate("C19", "roundtrip", fmt.Sprintf("of two encryptions overlapping in time (string=%v, the second value %s) the %s does not read back as the value that was added (error: %v)", asStr, shape, c.who, gerr != nil), map[string]string{"overlap": shape})
+						return
+					}
 				}
 			}
 		}
@@ -740,6 +819,7 @@ func genSecret(r *Rand, g GenCfg) Plan {
 	}
 	p.Steps = append(p.Steps, SecStep{Op: "retain", N: r.Intn(1 << 16)})
 	p.Steps = append(p.Steps, SecStep{Op: "rngfault"})
+	p.Steps = append(p.Steps, SecStep{Op: "overlap", N: r.Intn(10)})
 	p.Steps = append(p.Steps, SecStep{Op: "view", N: r.Intn(256)})
 	p.Steps = append(p.Steps, SecStep{Op: "kind"})
 	p.Steps = append(p.Steps, SecStep{Op: "extend"})
